@@ -95,6 +95,51 @@ def gen_requests(rng, strs, big=False):
     return req
 
 
+def oracle(out, line, w, strs, req, before, sec2, r, tc, add, sreq):
+    if sec2 is None:
+        out.violations.append({"oracle": "adding strings to a well-formed table succeeds", "case": line[:300], "got": r})
+        return
+    after = payload_of(tc, sec2)
+    if after is None:
+        # loud failure is allowed only when an offset no longer fits the field
+        top = (1 << (8 * w)) - 1
+        if not any(o > top for o in sec2.strings_offsets) and sec2.number_of_strings <= top:
+            out.violations.append({"oracle": "the grown table encodes (unless an offset exceeds the field width)", "case": line[:300]})
+        return
+    b_ids = refchk.str_table_view(before, w)
+    a_ids = refchk.str_table_view(after, w)
+    for i, t in b_ids.items():
+        if a_ids.get(i) != t:
+            out.violations.append({"oracle": "every existing id resolves to its previous text", "case": line[:300], "id": i, "before": hx(t) if t is not None else None, "after": hx(a_ids.get(i)) if a_ids.get(i) is not None else None})
+            break
+    texts = set(t for t in a_ids.values() if t is not None)
+    for s in req:
+        if s not in texts:
+            out.violations.append({"oracle": "every requested string gets an id resolving to exactly that text", "case": line[:300], "missing": hx(s)})
+            break
+    have = set(t for t in b_ids.values() if t is not None)
+    expect_new = []
+    for s in req:
+        if s not in have and s not in expect_new:
+            expect_new.append(s)
+    added = [s.encode() for s in sec2.strings[len(strs):]]
+    if added != expect_new:
+        out.violations.append({"oracle": "each string is stored at most once: only requests not already resolvable are appended, once each", "case": line[:300], "added": [hx(x) for x in added], "expected": [hx(x) for x in expect_new]})
+    # adding the same list again changes nothing
+    if add is not None:
+        try:
+            sec3 = add(sreq, sec2)
+            if (sec3.number_of_strings, list(sec3.strings_offsets), list(sec3.strings)) != (sec2.number_of_strings, list(sec2.strings_offsets), list(sec2.strings)):
+                out.violations.append({"oracle": "adding the same list twice changes nothing the second time", "case": line[:300]})
+        except Exception as ex:  # noqa: BLE001
+            out.violations.append({"oracle": "adding the same list twice succeeds", "case": line[:300], "err": err_class(ex)})
+    # well-formed result
+    n2 = sec2.number_of_strings
+    base2 = w + w * n2
+    if n2 != len(sec2.strings_offsets) or any(not (base2 <= o < len(after)) for o in sec2.strings_offsets) or any(v is None for v in a_ids.values()):
+        out.violations.append({"oracle": "the result is a well-formed table", "case": line[:300]})
+
+
 def run(prop, tier, seed):
     out = Outcome(prop)
     rng = Rng(seed * 104729 + 8)
@@ -114,6 +159,10 @@ def run(prop, tier, seed):
         n, offs, strs = gen_table(rng, w, wf)
         req = gen_requests(rng, strs, big=(w == 2 and rng.random() < 0.03))
         cases.append((w, n, offs, strs, req, wf))
+    from richchk.editor.chk.decoded_str_section_editor import DecodedStrSectionEditor
+    from richchk.editor.chk.decoded_strx_section_editor import DecodedStrxSectionEditor
+
+    shared = {2: DecodedStrSectionEditor().add_strings_to_str_section, 4: DecodedStrxSectionEditor().add_strings_to_strx_section}
     lines, reals = [], []
     for (w, n, offs, strs, req, wf) in cases:
         Sec, tc, add = api(w)
@@ -134,47 +183,51 @@ def run(prop, tier, seed):
         # ---------------- oracle (well-formed tables, 7-bit NUL-free requests)
         if not wf:
             continue
-        if sec2 is None:
-            out.violations.append({"oracle": "adding strings to a well-formed table succeeds", "case": line[:300], "got": r})
-            continue
-        after = payload_of(tc, sec2)
-        if after is None:
-            # loud failure is allowed only when an offset no longer fits the field
-            top = (1 << (8 * w)) - 1
-            if not any(o > top for o in sec2.strings_offsets) and sec2.number_of_strings <= top:
-                out.violations.append({"oracle": "the grown table encodes (unless an offset exceeds the field width)", "case": line[:300]})
-            continue
-        b_ids = refchk.str_table_view(before, w)
-        a_ids = refchk.str_table_view(after, w)
-        for i, t in b_ids.items():
-            if a_ids.get(i) != t:
-                out.violations.append({"oracle": "every existing id resolves to its previous text", "case": line[:300], "id": i, "before": hx(t) if t is not None else None, "after": hx(a_ids.get(i)) if a_ids.get(i) is not None else None})
-                break
-        texts = set(t for t in a_ids.values() if t is not None)
-        for s in req:
-            if s not in texts:
-                out.violations.append({"oracle": "every requested string gets an id resolving to exactly that text", "case": line[:300], "missing": hx(s)})
-                break
-        have = set(t for t in b_ids.values() if t is not None)
-        expect_new = []
-        for s in req:
-            if s not in have and s not in expect_new:
-                expect_new.append(s)
-        added = [s.encode() for s in sec2.strings[len(strs):]]
-        if added != expect_new:
-            out.violations.append({"oracle": "each string is stored at most once: only requests not already resolvable are appended, once each", "case": line[:300], "added": [hx(x) for x in added], "expected": [hx(x) for x in expect_new]})
-        # adding the same list again changes nothing
+        oracle(out, line, w, strs, req, before, sec2, r, tc, add, sreq)
+        # the same call through an editor object that has served other tables before: an editor keeps
+        # no memory of earlier tables, so the oracle holds for its answer too
         try:
-            sec3 = add(sreq, sec2)
-            if (sec3.number_of_strings, list(sec3.strings_offsets), list(sec3.strings)) != (sec2.number_of_strings, list(sec2.strings_offsets), list(sec2.strings)):
-                out.violations.append({"oracle": "adding the same list twice changes nothing the second time", "case": line[:300]})
+            sec2s = shared[w](sreq, sec)
+            rs = "OK " + dump(w, sec2s, tc)
         except Exception as ex:  # noqa: BLE001
-            out.violations.append({"oracle": "adding the same list twice succeeds", "case": line[:300], "err": err_class(ex)})
-        # well-formed result
-        n2 = sec2.number_of_strings
-        base2 = w + w * n2
-        if n2 != len(sec2.strings_offsets) or any(not (base2 <= o < len(after)) for o in sec2.strings_offsets) or any(v is None for v in a_ids.values()):
-            out.violations.append({"oracle": "the result is a well-formed table", "case": line[:300]})
+            sec2s, rs = None, "ERR " + err_class(ex)
+        if rs != r:
+            nv = len(out.violations)
+            oracle(out, line + "  [editor object reused across tables]", w, strs, req, before, sec2s, rs, tc, None, sreq)
+            if len(out.violations) == nv:
+                out.disagreements.append({"op": line[:300], "what": "a reused editor object answers differently from a fresh one", "fresh": r[:200], "reused": rs[:200]})
+    # ---------------- the save path: the STR rebuilder collects the RichStrings of a RichChk and adds them
+    from richchk.io.richchk.decoded_str_section_rebuilder import DecodedStrSectionRebuilder
+    from richchk.model.richchk.mrgn.rich_location import RichLocation
+    from richchk.model.richchk.mrgn.rich_mrgn_section import RichMrgnSection
+    from richchk.model.richchk.rich_chk import RichChk
+    from richchk.model.richchk.str.rich_string import RichNullString, RichString
+
+    Sec, tc, add = api(2)
+    rb = [(2, [6, 12], [b"Alpha", b"Beta"], [b"Hero Marine", b""]), (0, [], [], [b""]), (1, [4], [b"ab"], [b"", b"ab", b""])]
+    for i in range(N // 4):
+        n, offs, strs = gen_table(rng, 2, True)
+        rb.append((n, offs, strs, gen_requests(rng, strs)))
+    for (n, offs, strs, req) in rb:
+        sec = Sec(_number_of_strings=n, _string_offsets=list(offs), _strings=[s.decode("ascii") for s in strs])
+        before = payload_of(tc, sec)
+        locs = [RichLocation(1, 2, 3, 4, RichString(_value=s.decode("ascii")), None) for s in req]
+        locs.append(RichLocation(5, 6, 7, 8, RichNullString(), None))
+        chk = RichChk(_chk_sections=[sec, RichMrgnSection(_locations=locs)])
+        uniq = []
+        for s in req:
+            if s not in uniq:
+                uniq.append(s)
+        line = "addstr 2 %d %s %s %s" % (n, ",".join(map(str, offs)) or "=", ",".join(hx(s) for s in strs) or "=", ",".join(hx(s) for s in uniq) or "=")
+        out.case("rebuild-str", ("rebuild " + line).encode(), sample={"op": "rebuild " + line[:200]})
+        try:
+            sec2 = DecodedStrSectionRebuilder.rebuild_str_section_from_rich_chk(chk)
+            r = "OK " + dump(2, sec2, tc)
+        except Exception as ex:  # noqa: BLE001
+            sec2, r = None, "ERR " + err_class(ex)
+        lines.append(line)
+        reals.append(r)
+        oracle(out, "rebuild-from-RichChk " + line, 2, strs, uniq, before, sec2, r, tc, None, None)
     # STR -> STRx preserves the whole id -> text mapping
     from richchk.editor.chk.decoded_strx_section_generator import DecodedStrxSectionGenerator
 
